@@ -23,7 +23,7 @@ theorem FIe_send (N : Nat) (links : List (Nat × List Tgt)) (hwf : TreeWF N link
     have htok := tgtOK_link N links hwf _ t hl1
     cases t with
     | sink k =>
-      rw [gWrite_sink g1 _ _ _ k (by show getL g.links srcKey = _; rw [hgl]; exact hl1)]
+      rw [gWrite_sink g1 _ _ _ k (by show getL g.links srcKey = _; rw [hgl]; exact hl1) (h.logBound g.next (Nat.le_refl _)).2.1]
       have key := FI_send N links hwf ss ss g h (.sink k) hl1 htok v g.nodes _ ⟨rfl, rfl, rfl⟩
       exact ⟨_, FI_congr N links _ D0 _ _ key rfl rfl rfl rfl rfl rfl rfl rfl rfl⟩
     | node m port =>
@@ -34,7 +34,7 @@ theorem FIe_send (N : Nat) (links : List (Nat × List Tgt)) (hwf : TreeWF N link
       | some ndm =>
         obtain ⟨ndm', hpst, hprel⟩ := push_node (ss m) ndm (g.next + 1) v
           (NodeSpec.rel_mono _ _ _ _ (h.rel m ndm hm) (Nat.le_succ _))
-        rw [gWrite_node g1 _ _ _ m 0 ndm ndm' [] (by show getL g.links srcKey = _; rw [hgl]; exact hl1) hm hpst]
+        rw [gWrite_node g1 _ _ _ m 0 ndm ndm' [] (by show getL g.links srcKey = _; rw [hgl]; exact hl1) hm hpst (h.logBound g.next (Nat.le_refl _)).2.1]
         have key := FI_send N links hwf ss _ g h (.node m 0) hl1 htok v _ _ ⟨ndm, ndm', hm, hprel, rfl, rfl, rfl⟩
         exact ⟨_, FI_congr N links _ D0 _ _ key rfl rfl rfl rfl rfl rfl rfl rfl rfl⟩
 
@@ -162,6 +162,7 @@ theorem FIe_ext (N : Nat) (links : List (Nat × List Tgt)) (hwf : TreeWF N links
       | same => exact he.elim
       | many _ => exact he.elim
       | drop => exact he.elim
+      | sames _ => exact he.elim
 
 theorem FIe_runExt (N : Nat) (links : List (Nat × List Tgt)) (hwf : TreeWF N links) (es : List Ext) :
     ∀ (g : G), (∀ e ∈ es, ExtT1 e) → FIe N links g → FIe N links (runExt g es) := by
